@@ -1,7 +1,26 @@
 package engine
 
-import "fmt"
+import (
+	"fmt"
+	"sync/atomic"
+)
 
 func boundText(p ObjPlan) string {
 	return fmt.Sprintf("v2 complete=%v; t-wise t=%d; storage windows w<=%d (<=%d states); presence rotations=%d; 3 backgrounds", p.FullV2, p.T, p.W, p.WCap, p.Rotations)
+}
+
+// Counter is a contention-free counter for hot loops: the shard is chosen from
+// the enumeration index (chunks of 8192 consecutive indices share a shard).
+type Counter [128]struct {
+	n atomic.Int64
+	_ [56]byte
+}
+
+func (c *Counter) Add(idx int, n int64) { c[(idx>>13)&127].n.Add(n) }
+func (c *Counter) Load() int64 {
+	var t int64
+	for i := range c {
+		t += c[i].n.Load()
+	}
+	return t
 }
